@@ -611,8 +611,36 @@ class Scoper(object):
                 items.append((s, c))
                 s = c + 1
             items.append((s, f1))
+            introduced = []
             for a, b in items:
+                before = dict(aliases)
                 self.from_item(a, b, aliases, table_positions, withs)
+                introduced.append((a, b, [n for n in aliases
+                                          if aliases[n] != before.get(n, 0)]))
+            # a FROM item may use the aliases of items to its LEFT (lateral reference)
+            # and of enclosing queries, never its own alias or one introduced further
+            # right: "refers to an alias introduced by an enclosing FROM" is read
+            # left-to-right, as every engine but SQLite does
+            seen_left = set()
+            for a, b, new in introduced:
+                forbidden = set(aliases) - seen_left - set(outer)
+                ases = self.split0(a, b, lambda t: _iskw(t, 'as'))
+                body_end = ases[-1] if ases else b
+                for k in range(a, body_end):
+                    t = toks[k]
+                    if not _isname(t) or t[1] not in forbidden:
+                        continue
+                    if k > a and _isop(toks[k - 1], '.'):
+                        continue                      # a column named like an alias
+                    dotted = k + 1 < body_end and _isop(toks[k + 1], '.')
+                    bare_var = re.match(r'^x_[0-9]+$', t[1]) is not None
+                    if dotted or bare_var:
+                        self.p('alias_scope',
+                               'FROM item refers to alias %s which is introduced by the '
+                               'same or a later FROM item (forward reference) near %r'
+                               % (t[1], self.near(k)))
+                        break
+                seen_left |= set(new)
         scope = dict(outer)
         scope.update(aliases)
         self.stats['from_aliases'] += len(aliases)
